@@ -648,6 +648,8 @@ func (c *EvalCtx) evalCall(x *ast.CallExpr) Val {
 		return IntV{sx("wrapm_u64", fe.intTerm(c.eval(args[0])))}
 	case "wrap_s64":
 		return IntV{sx("wrapm_s64", fe.intTerm(c.eval(args[0])))}
+	case "wrap_u32":
+		return IntV{sx("wrapm_u32", fe.intTerm(c.eval(args[0])))}
 	case "min":
 		return IntV{sx("imin", fe.intTerm(c.eval(args[0])), fe.intTerm(c.eval(args[1])))}
 	case "max":
